@@ -29,10 +29,10 @@ import (
 	"time"
 )
 
-const (
-	verifDir = "/verif"
-	goBin    = "go1.26.8"
-)
+const goBin = "go1.26.8"
+
+// verifDir is /verif, or VERIF_DIR (a snapshot of /verif used by background runs).
+var verifDir = "/verif"
 
 var repoDir = "/repo"
 
@@ -193,6 +193,15 @@ func build(scratch string, withTests bool) string {
 		die(2, "compiling the harness against the instrumented tree failed: %v\n%s", err, b)
 	}
 	return bin
+}
+
+// outDir is where evidence and replay files go: /verif, or VERIF_OUT_DIR for sensitivity runs
+// against seeded changes (which must not overwrite the committed evidence).
+func outDir() string {
+	if v := os.Getenv("VERIF_OUT_DIR"); v != "" {
+		return v
+	}
+	return verifDir
 }
 
 func mkScratch() string {
@@ -482,7 +491,7 @@ func cmdRun(args []string) {
 				best = r
 			}
 		}
-		path := filepath.Join(verifDir, "replays", fmt.Sprintf("%s-%d-%s.json", *prop, best.Seed, shortHash(k)))
+		path := filepath.Join(outDir(), "replays", fmt.Sprintf("%s-%d-%s.json", *prop, best.Seed, shortHash(k)))
 		rep := map[string]interface{}{"property": *prop, "tier": *tier, "seed": best.Seed, "clause": ci.v.Clause, "fingerprint": ci.v.Fingerprint,
 			"detail": ci.v.Detail, "tree": treeID(), "scenario_tape": best.ScenTape, "schedule_tape": best.SchedTape, "minimised": false}
 		if shrunk < 6 {
@@ -593,7 +602,7 @@ func cmdRun(args []string) {
 			"worker_processes": *workers, "build_s": buildS, "search_s": searchS, "tree": treeID(),
 		},
 	}
-	writeJSON(filepath.Join(verifDir, "evidence", *prop+".json"), ev)
+	writeJSON(filepath.Join(outDir(), "evidence", *prop+".json"), ev)
 	fmt.Printf("simcheck: %s %s: %d runs (%d non-trivial, %d distinct interleavings), %d violating, %d new violation classes, %d known-finding classes, %.1fs (build %.1fs)\n",
 		*prop, *tier, tot.Runs, tot.Nontrivial, len(sigs), tot.Violating, newViolations, len(dedupeStr(knownLines)), wallS, buildS)
 	os.RemoveAll(scratch)
@@ -826,6 +835,9 @@ func main() {
 	}
 	if v := os.Getenv("VERIF_REPO"); v != "" {
 		repoDir = v
+	}
+	if v := os.Getenv("VERIF_DIR"); v != "" {
+		verifDir = v
 	}
 	switch os.Args[1] {
 	case "run":
